@@ -413,6 +413,39 @@ def gen_registry(rng, resolve=False, maxops=45):
     return "%s %d %s ; %s" % ("res" if resolve else "reg", len(order), " ".join(toks), " ".join(ops))
 
 
+def gen_overlap(rng):
+    """Two pools of one family with the same range (the same subnet in two VRFs), one value held in both,
+    then the release-by-value / release-in-pool walks; the per-pool Available shows who lost the lease."""
+    fam = rng.choice(["4", "n", "d"])
+    vr = [rng.choice([0, 1]), 2]
+    if fam == "4":
+        spec = lambda name, vrf: [str(name), "0", str(vrf), "%s/29" % atok(4, 0x0a000100), "-", "-", "-", "0"]
+        val = lambda: atok(4, 0x0a000100 + rng.randint(1, 6))
+    elif fam == "n":
+        b = 0x20010db8 << 96
+        spec = lambda name, vrf: [str(name), "0", str(vrf), "%s/125" % atok(6, b), "-", "-", "-", "0"]
+        val = lambda: atok(6, b + rng.randint(1, 6))
+    else:
+        b = 0x20010dba << 96
+        spec = lambda name, vrf: [str(name), "0", str(vrf), "%s/62" % atok(6, b), "64", "-", "-", "0"]
+        val = lambda: "6:%d/64:128" % (b + (rng.randrange(4) << 64))
+    two_profiles = rng.random() < 0.5
+    if two_profiles:
+        toks = ["2", "1", fam, "-", "1"] + spec(1, vr[0]) + ["2", fam, "-", "1"] + spec(1, vr[1])
+        k1, k2 = "1/1", "2/1"
+    else:
+        toks = ["1", "1", fam, "-", "2"] + spec(1, vr[0]) + spec(2, vr[1])
+        k1, k2 = "1/1", "1/2"
+    x, y = val(), val()
+    ops = ["P%s1,%s,%s" % (fam, k1, x), "P%s2,%s,%s" % (fam, k2, x), "P%s3,%s,%s" % (fam, rng.choice([k1, k2]), y)]
+    for _ in range(rng.randint(1, 4)):
+        ops.append(rng.choice(["I%s%s" % (fam, x), "Q%s%s,%s" % (fam, rng.choice([k1, k2, "9/9"]), x),
+                               "L%s%s,%s" % (fam, rng.choice([k1, k2]), x), "R%s%d,%s" % (fam, rng.randint(1, 3), x),
+                               "I%s%s" % (fam, y), "P%s%d,%s,%s" % (fam, rng.randint(1, 2), rng.choice([k1, k2]), x)]))
+        ops += ["V%s%s" % (fam, k1), "V%s%s" % (fam, k2)]
+    return "reg %s ; %s" % (" ".join(toks), " ".join(ops))
+
+
 def exhaustive_small():
     """all histories of length <= L over a 3-address pool with one exclusion and 2 sessions"""
     lo, hi = 0x0a0000fe, 0x0a000101          # 10.0.0.254 .. 10.0.1.1 (4 addresses, one excluded -> 3 assignable)
@@ -434,6 +467,8 @@ def gen_cases(rng, tier, budget):
         cases.append(gen_registry(rng))
     for _ in range(n * 10 // 100):
         cases.append(gen_registry(rng, resolve=True))
+    for _ in range(n * 6 // 100):
+        cases.append(gen_overlap(rng))
     # bounded-exhaustive block
     lo, hi, ex, alpha = exhaustive_small()
     L = 2 if tier == "quick" else 4
@@ -695,6 +730,11 @@ def classify(case, impl, model):
         return "P", "op %d %s: answer %s is not admissible (%s)" % (k, op, a, m.split(":", 1)[1])
     if k < len(ops) and op[0] in "RLPICV" and head[0] in ("pool", "pd"):
         return "P", "op %d %s: returned %s, the proved model says %s" % (k, op, a, m)
+    if k < len(ops) and op[0] in "YZ":
+        return "P", "op %d %s: Resolve returned %s, the proved model says %s" % (k, op, a, m)
+    if head[0] == "reg" and (k >= len(ops) or op[0] == "V") and "=" in a + m or (k < len(ops) and op[0] == "V"):
+        return "P", "%s: %s free, the proved model says %s (a lease was dropped or kept in the wrong pool)" % (
+            ("op %d %s" % (k, op)) if k < len(ops) else "end of history", a, m)
     return "G", "first difference at op %d %s: impl=%s model=%s" % (k, op, a, m)
 
 
